@@ -48,7 +48,7 @@ def shape_header(opts=0, enc=0, dir=0, textlen=8, text=b'', flags=0, sel=0):
 
 def main():
     import fontsynth
-    for d in ('min', 'synth', 'fz_shape', 'fz_face'):
+    for d in ('min', 'synth', 'fz_shape', 'fz_face', 'fz_lz4'):
         p = os.path.join(CORPUS, d)
         shutil.rmtree(p, ignore_errors=True)
         os.makedirs(p)
@@ -86,6 +86,16 @@ def main():
         open(os.path.join(CORPUS, 'fz_shape', name + '_1'), 'wb').write(shape_header(0x0E, 0, 1, 24, bytes(range(1, 97, 2)), flags=1, sel=11) + m)
         open(os.path.join(CORPUS, 'fz_face', name), 'wb').write(bytes(16) + m)
         open(os.path.join(CORPUS, 'fz_face', name + '_pre'), 'wb').write(bytes([6, 0]) + bytes(14) + m)
+    # fz_lz4 seeds: valid encodings of table slices and periodic strings (u16 size selector 0 = exact)
+    import lz4ref, random
+    rng = random.Random(7)
+    k = 0
+    plains = [f[200:200 + 900] for _, f, _ in synth[:8]] + [b'abcd' * 200, bytes(range(256)) * 3 + bytes(range(256)), b'\0' * 700, (b'xyz' * 5 + b'Q') * 60]
+    for pl in plains:
+        for _ in range(3):
+            blk, st = lz4ref.encode_with(pl, lambda kind, lo, hi: rng.randint(lo, hi))
+            open(os.path.join(CORPUS, 'fz_lz4', '%03d' % k), 'wb').write(b'\0\0' + blk)
+            k += 1
     print('corpus: %d minified, %d synthesised, %d fz_shape seeds, %d fz_face seeds' % (
         len(small), len(synth), len(os.listdir(os.path.join(CORPUS, 'fz_shape'))), len(os.listdir(os.path.join(CORPUS, 'fz_face')))))
 
